@@ -4,4 +4,5 @@ CONSTANTS
   MaxFields = 2
   Later = {"sigM", "sigK", "sigK2", "grp", "grp3", "grpFT", "tx"}
   IndDims = {}
+  OthCfgs = {"ind1", "dir1", "mix"}
 INVARIANTS KeepDisjoint NoSigNoPerms FlagsDoNotSign Emit
